@@ -101,6 +101,33 @@ class SymArray:
         self.writes.append((idx, val))
 
 
+class NdArr(list):
+    """a 1-D ndarray with numpy's OBJECT semantics: element-wise arithmetic gives a fresh array, np.real / np.imag give VIEWS, and an augmented
+    assignment updates the array in place - through every alias and through the view into its parent.  `origin` names the function parameter the
+    array came from (a write that reaches it is a frame obligation)."""
+
+    def __init__(self, items=(), origin=None, view=None):
+        super().__init__(items)
+        self.origin = origin
+        self.view = view          # (parent NdArr, "re" | "im")
+
+    def root(self):
+        a = self
+        while a.view is not None:
+            a = a.view[0]
+        return a
+
+    def write_through(self):
+        """after this array's elements changed in place: update the parents it is a view of"""
+        a = self
+        while a.view is not None:
+            parent, part = a.view
+            for k in range(len(a)):
+                old = Cx.of(parent[k])
+                parent[k] = Cx(a[k], old.im) if part == "re" else Cx(old.re, a[k])
+            a = parent
+
+
 class ArrayView:
     """a[i, :, ...] : remaining axes indexed later"""
 
@@ -323,6 +350,9 @@ class Exec:
             self.facts = []
             self.effects = []
             env = dict(self.opts["fresh_args"]()) if self.opts.get("fresh_args") else dict(args)   # fresh mutable state for every re-execution
+            for k_, v_ in list(env.items()):
+                if isinstance(v_, NdArr):
+                    env[k_] = NdArr(list(v_), origin=k_)           # fresh copy per explored path, tagged with the parameter it came from
             self._fnstack = [self.fn]
             for p, d in self.fn.defaults.items():
                 if p not in env:
@@ -497,6 +527,22 @@ class Exec:
     def st_AugAssign(self, st, env):
         cur = self.ev(_load(st.target), env)
         v = self.binop(st.op, cur, self.ev(st.value, env), st)
+        if isinstance(cur, NdArr) and isinstance(v, NdArr) and isinstance(st.target, ast.Name):
+            # numpy: the update happens inside the existing array object (every alias and every parent of a view sees it)
+            root = cur.root()
+            old_root = list(root)
+            for k in range(len(cur)):
+                cur[k] = v[k]
+            cur.write_through()
+            if root.origin is not None and self.opts.get("alias_check", True):
+                goals = []
+                for o_, n_ in zip(old_root, root):
+                    o_, n_ = T.Cx.of(o_), T.Cx.of(n_)
+                    goals += [sp.Eq(n_.re, o_.re), sp.Eq(n_.im, o_.im)]
+                self.oblige("frame", st, sp.And(*goals), f"in-place `{st.target.id} {type(st.op).__name__}= ...` writes into the caller's array `{root.origin}` "
+                                                          f"(the target is a view of / alias for that argument): the argument must be left unchanged",
+                            extra_meta=dict(argument=root.origin, target=st.target.id))
+            return
         if isinstance(st.target, ast.Name) and self.opts.get("alias_check", True) and T.is_num(cur) and not isinstance(cur, (bool, int, float)):
             al = env.get("__alias__", {})
             gid = al.get(st.target.id)
@@ -875,6 +921,13 @@ class Exec:
         return self.binop(node.op, a, b, node)
 
     def binop(self, op, a, b, node):
+        if isinstance(a, NdArr) or isinstance(b, NdArr):
+            n_ = len(a) if isinstance(a, NdArr) else len(b)
+            if isinstance(a, NdArr) and isinstance(b, NdArr) and len(a) != len(b):
+                raise SymExError("ndarray shapes differ")
+            ai = list(a) if isinstance(a, NdArr) else [a] * n_
+            bi = list(b) if isinstance(b, NdArr) else [b] * n_
+            return NdArr([self.binop(op, x_, y_, node) for x_, y_ in zip(ai, bi)])
         # strings / lists / tuples
         if isinstance(a, str) or isinstance(b, str):
             if isinstance(op, ast.Add):
@@ -1436,6 +1489,8 @@ def _sh_tan(ex, node, x):
 
 
 def _sh_real(ex, node, x):
+    if isinstance(x, NdArr):
+        return NdArr([_sh_real(ex, node, v) for v in x], view=(x, "re"))
     if isinstance(x, (list, tuple)):
         return [_sh_real(ex, node, v) for v in x]
     x = _num(x)
@@ -1443,6 +1498,8 @@ def _sh_real(ex, node, x):
 
 
 def _sh_imag(ex, node, x):
+    if isinstance(x, NdArr):
+        return NdArr([_sh_imag(ex, node, v) for v in x], view=(x, "im"))
     if isinstance(x, (list, tuple)):
         return [_sh_imag(ex, node, v) for v in x]
     x = _num(x)
